@@ -118,42 +118,41 @@ func (r *RibEntry) updateNexthopsEnc() {
 	// Only nodes that hold (or have held) routes own a FIB entry. Filler nodes
 	// on the way to a longer prefix have no name and contribute nothing.
 	if r.Name != nil {
-		FibStrategyTable.ClearNextHopsEnc(r.Name)
-	}
+		minCostRoutes := make(map[uint64]uint64) // FaceID -> Cost
 
-	if r.Name != nil && len(r.routes) > 0 {
-		// Own routes
-		routes := append([]*Route{}, r.routes...)
+		if len(r.routes) > 0 {
+			// Own routes
+			routes := append([]*Route{}, r.routes...)
 
-		// Child-inherit routes of shorter prefixes, unless we have the capture
-		// flag set. Inheritance stops at (and includes) the nearest shorter
-		// prefix holding a capture route.
-		if !r.HasCaptureRoute() {
-			for entry := r.parent; entry != nil; entry = entry.parent {
-				for _, route := range entry.routes {
-					if route.HasChildInheritFlag() {
-						routes = append(routes, route)
+			// Child-inherit routes of shorter prefixes, unless we have the capture
+			// flag set. Inheritance stops at (and includes) the nearest shorter
+			// prefix holding a capture route.
+			if !r.HasCaptureRoute() {
+				for entry := r.parent; entry != nil; entry = entry.parent {
+					for _, route := range entry.routes {
+						if route.HasChildInheritFlag() {
+							routes = append(routes, route)
+						}
+					}
+					if entry.HasCaptureRoute() {
+						break
 					}
 				}
-				if entry.HasCaptureRoute() {
-					break
+			}
+
+			// Find minimum cost route per nexthop
+			for _, route := range routes {
+				cost, ok := minCostRoutes[route.FaceID]
+				if !ok || route.Cost < cost {
+					minCostRoutes[route.FaceID] = route.Cost
 				}
 			}
 		}
 
-		// Find minimum cost route per nexthop
-		minCostRoutes := make(map[uint64]uint64) // FaceID -> Cost
-		for _, route := range routes {
-			cost, ok := minCostRoutes[route.FaceID]
-			if !ok || route.Cost < cost {
-				minCostRoutes[route.FaceID] = route.Cost
-			}
-		}
-
-		// Add "flattened" set of nexthops
-		for nexthop, cost := range minCostRoutes {
-			FibStrategyTable.InsertNextHopEnc(r.Name, nexthop, cost)
-		}
+		// Install the "flattened" set of nexthops in one step: a forwarding thread
+		// looking up the prefix meanwhile sees the old or the new set, never an
+		// empty or half-filled entry (which would fall back to a shorter prefix)
+		FibStrategyTable.ReplaceNextHopsEnc(r.Name, minCostRoutes)
 	}
 
 	// Trigger update for all children for inheritance
